@@ -2,6 +2,7 @@ package main
 
 import (
 	"go/ast"
+	"go/token"
 	"go/types"
 	"sort"
 	"strings"
@@ -69,22 +70,13 @@ func (p *Prog) compositeLits1(f *ssa.Function, of *types.Named) []map[string]ast
 	if info == nil || syn == nil {
 		return nil
 	}
-	var out []map[string]ast.Expr
-	ast.Inspect(syn, func(n ast.Node) bool {
-		cl, ok := n.(*ast.CompositeLit)
-		if !ok {
-			return true
-		}
-		tv, ok := info.Types[cl]
-		if !ok {
-			return true
-		}
-		nt := namedOf(tv.Type)
-		if nt == nil || nt.Obj() != of.Obj() {
-			return true
-		}
+	isOf := func(t types.Type) bool {
+		nt := namedOf(t)
+		return nt != nil && nt.Obj() == of.Obj()
+	}
+	litMap := func(cl *ast.CompositeLit) map[string]ast.Expr {
 		m := map[string]ast.Expr{}
-		st, _ := nt.Underlying().(*types.Struct)
+		st, _ := of.Underlying().(*types.Struct)
 		for i, el := range cl.Elts {
 			if kv, ok := el.(*ast.KeyValueExpr); ok {
 				if id, ok := kv.Key.(*ast.Ident); ok {
@@ -94,9 +86,209 @@ func (p *Prog) compositeLits1(f *ssa.Function, of *types.Named) []map[string]ast
 				m[st.Field(i).Name()] = el
 			}
 		}
-		out = append(out, m)
+		return m
+	}
+	// a value of the type is built either by a composite literal or by new(T) / &T{} / var v T followed by
+	// field-by-field assignments v.F = e; both forms yield one field -> expression map
+	bound := map[types.Object]map[string]ast.Expr{} // variables under construction
+	boundLit := map[*ast.CompositeLit]bool{}
+	var order []types.Object
+	bind := func(id *ast.Ident, rhs ast.Expr) {
+		obj := info.ObjectOf(id)
+		if obj == nil || !isOf(obj.Type()) {
+			return
+		}
+		var m map[string]ast.Expr
+		switch x := rhs.(type) {
+		case nil:
+			m = map[string]ast.Expr{} // var v T
+		case *ast.CompositeLit:
+			if tv, ok := info.Types[x]; ok && isOf(tv.Type) {
+				m = litMap(x)
+				boundLit[x] = true
+			}
+		case *ast.UnaryExpr:
+			if cl, ok := x.X.(*ast.CompositeLit); ok && x.Op == token.AND {
+				if tv, ok := info.Types[cl]; ok && isOf(tv.Type) {
+					m = litMap(cl)
+					boundLit[cl] = true
+				}
+			}
+		case *ast.CallExpr:
+			if fn, ok := x.Fun.(*ast.Ident); ok && fn.Name == "new" && len(x.Args) == 1 {
+				if tv, ok := info.Types[x.Args[0]]; ok && isOf(tv.Type) {
+					m = map[string]ast.Expr{}
+				}
+			}
+		}
+		if m != nil {
+			if _, seen := bound[obj]; !seen {
+				order = append(order, obj)
+			}
+			bound[obj] = m
+		}
+	}
+	ast.Inspect(syn, func(n ast.Node) bool {
+		switch x := n.(type) {
+		case *ast.AssignStmt:
+			if len(x.Lhs) == len(x.Rhs) {
+				for i, l := range x.Lhs {
+					if id, ok := l.(*ast.Ident); ok && x.Tok == token.DEFINE {
+						bind(id, x.Rhs[i])
+					}
+				}
+			}
+		case *ast.ValueSpec:
+			for i, id := range x.Names {
+				if i < len(x.Values) {
+					bind(id, x.Values[i])
+				} else if len(x.Values) == 0 {
+					bind(id, nil)
+				}
+			}
+		}
 		return true
 	})
+	// a field assignment belongs to the construction only when it is unconditional: a statement of the
+	// very block that declares the variable, or an if/else of that block that assigns the field on every
+	// branch. `if c { v.F = e }` leaves F unset on the other branch.
+	fieldAssigned := map[types.Object]bool{}
+	declBlock := map[types.Object]*ast.BlockStmt{}
+	fieldOf := func(st ast.Stmt) map[types.Object]map[string]ast.Expr {
+		as, ok := st.(*ast.AssignStmt)
+		if !ok || len(as.Lhs) != len(as.Rhs) {
+			return nil
+		}
+		var res map[types.Object]map[string]ast.Expr
+		for i, l := range as.Lhs {
+			se, ok := l.(*ast.SelectorExpr)
+			if !ok {
+				continue
+			}
+			id, ok := se.X.(*ast.Ident)
+			if !ok {
+				continue
+			}
+			obj := info.ObjectOf(id)
+			if _, ok := bound[obj]; ok {
+				if res == nil {
+					res = map[types.Object]map[string]ast.Expr{}
+				}
+				if res[obj] == nil {
+					res[obj] = map[string]ast.Expr{}
+				}
+				res[obj][se.Sel.Name] = as.Rhs[i]
+			}
+		}
+		return res
+	}
+	// every(st): the field assignments made on every path through the statement
+	var every func(st ast.Stmt) map[types.Object]map[string]ast.Expr
+	everyList := func(list []ast.Stmt) map[types.Object]map[string]ast.Expr {
+		res := map[types.Object]map[string]ast.Expr{}
+		for _, st := range list {
+			for obj, m := range every(st) {
+				if res[obj] == nil {
+					res[obj] = map[string]ast.Expr{}
+				}
+				for k, v := range m {
+					res[obj][k] = v
+				}
+			}
+		}
+		return res
+	}
+	every = func(st ast.Stmt) map[types.Object]map[string]ast.Expr {
+		switch x := st.(type) {
+		case *ast.AssignStmt:
+			return fieldOf(x)
+		case *ast.BlockStmt:
+			return everyList(x.List)
+		case *ast.IfStmt:
+			if x.Else == nil {
+				return nil
+			}
+			a, b := everyList(x.Body.List), every(x.Else)
+			res := map[types.Object]map[string]ast.Expr{}
+			for obj, m := range a {
+				for k, v := range m {
+					if _, both := b[obj][k]; both {
+						if res[obj] == nil {
+							res[obj] = map[string]ast.Expr{}
+						}
+						res[obj][k] = v
+					}
+				}
+			}
+			return res
+		}
+		return nil
+	}
+	ast.Inspect(syn, func(n ast.Node) bool {
+		blk, ok := n.(*ast.BlockStmt)
+		if !ok {
+			return true
+		}
+		for _, st := range blk.List {
+			// declarations of this block
+			switch x := st.(type) {
+			case *ast.AssignStmt:
+				if x.Tok == token.DEFINE {
+					for _, l := range x.Lhs {
+						if id, ok := l.(*ast.Ident); ok {
+							if obj := info.ObjectOf(id); obj != nil {
+								if _, isBound := bound[obj]; isBound && declBlock[obj] == nil {
+									declBlock[obj] = blk
+								}
+							}
+						}
+					}
+				}
+			case *ast.DeclStmt:
+				if gd, ok := x.Decl.(*ast.GenDecl); ok {
+					for _, sp := range gd.Specs {
+						if vs, ok := sp.(*ast.ValueSpec); ok {
+							for _, id := range vs.Names {
+								if obj := info.ObjectOf(id); obj != nil {
+									if _, isBound := bound[obj]; isBound && declBlock[obj] == nil {
+										declBlock[obj] = blk
+									}
+								}
+							}
+						}
+					}
+				}
+			}
+			for obj, m := range every(st) {
+				if declBlock[obj] != blk {
+					continue
+				}
+				for k, v := range m {
+					bound[obj][k] = v
+				}
+				fieldAssigned[obj] = true
+			}
+		}
+		return true
+	})
+	var out []map[string]ast.Expr
+	ast.Inspect(syn, func(n ast.Node) bool {
+		cl, ok := n.(*ast.CompositeLit)
+		if !ok || boundLit[cl] {
+			return true
+		}
+		if tv, ok := info.Types[cl]; ok && isOf(tv.Type) {
+			out = append(out, litMap(cl))
+		}
+		return true
+	})
+	for _, obj := range order {
+		m := bound[obj]
+		// a variable only counts as a construction if something was put into it (a literal's fields or assignments)
+		if len(m) > 0 || fieldAssigned[obj] {
+			out = append(out, m)
+		}
+	}
 	return out
 }
 
